@@ -23,6 +23,10 @@
                              situation (dk_class of Dijkstra_FibC_Model.v); also printed by M
    I <n> <n*n integers>      geodesic table -> "cur <qmat>" "old <qmat>" "mds <qmat>"
    J <n> <n*n integers> B <n*n num/den>   "mds ok|fail"     (check_mds on an observed matrix)
+   P <graph> [B <N*N num/den>]   the embed() pipeline judged from the MODEL geodesics (wave 4): "sp <mat>" (Bellman-Ford
+                             specification on the graph); if every entry is finite also "mds <qmat>" = mds_ref_exec of that
+                             table (-1/2 J S J, S = squared lengths of both directions averaged) and, when B is given,
+                             "mds ok|fail" = check_mds N (sp table) B
    <mat>  = "<r> <c> e e e ..." (row major, "inf" = None) | "OOB <site> <idx>" | "FUEL"
    <qmat> = "<r> <c> num/den ..." *)
 open C04_model
@@ -186,6 +190,24 @@ let handle line =
           show_qmat "cur" (iso_current_exec nn t);
           show_qmat "old" (iso_old_exec nn t);
           show_qmat "mds" (mds_ref_exec nn t)
+        | "P" ->
+          let g = read_graph () in
+          let w = table_w g.w and nn = nat_of_int g.n in
+          let sp = sp_matrix g.nbrs w nn in
+          out "sp" (DOk sp);
+          if List.for_all (List.for_all (fun x -> x <> None)) sp then begin
+            let t = List.map (List.map (function Some z -> z | None -> Z0)) sp in
+            show_qmat "mds" (mds_ref_exec nn t);
+            (match peek () with
+             | Some "B" -> ignore (next ());
+               let obs = times g.n (fun () -> times g.n (fun () ->
+                   let s = next () in
+                   match String.split_on_char '/' s with
+                   | [a; b] -> (z_of_int (int_of_string a), pos_of_int (int_of_string b))
+                   | _ -> raise (Bad "frac"))) in
+               print_string (if check_mds nn t obs then "mds ok\n" else "mds fail\n")
+             | _ -> ())
+          end
         | "J" ->
           let n = next_int () in
           let t = read_ztable n in
